@@ -188,7 +188,7 @@ Qed.
 Theorem C05_site_ts_alias a :
   dom_C05 (atype a) = true -> known_C05 TypeScript c (agenerics a) (atype a) = None ->
   runs_sat (ts_decl_of uc cfg (ItAlias a))
-           (fun d => exists docs name u, d = TSAlias docs name (agenerics a) (erase (agenerics a) (atype a)) u).
+           (fun d => exists docs name u n, d = TSAlias docs name (agenerics a) (erase (agenerics a) (atype a)) u n).
 Proof.
   intros Hd Hk. cbn [ts_decl_of].
   eapply sat_bind; [apply runs_to_sat, (C05_fmt_ts cfg _ _ Hd Hk)|]. intros ty ->. apply sat_ret. eauto.
@@ -204,7 +204,7 @@ Qed.
 
 Theorem C05_site_ts_payload g ue t vsh :
   dom_C05 t = true -> known_C05 TypeScript c g t = None ->
-  runs_sat (ts_variant_of cfg g ue (VTuple t vsh)) (fun v => exists docs w o, v = TVTuple docs w (erase g t) o).
+  runs_sat (ts_variant_of cfg g ue (VTuple t vsh)) (fun v => exists docs w o n, v = TVTuple docs w (erase g t) o n).
 Proof.
   intros Hd Hk. cbn [ts_variant_of].
   eapply sat_bind; [apply runs_to_sat, (C05_fmt_ts cfg _ _ Hd Hk)|]. intros ty ->. apply sat_ret. eauto.
